@@ -34,6 +34,7 @@ MANIFEST = {
 }
 
 FORMATS = ["srt", "webvtt", "dfxp", "sami", "microdvd"]
+DFXP_EXTRA = ["dfxp-single", "dfxp-legacy"]
 POINTS = [0, 1000500, 2040000, 3999999, 5000000, 5001000, 8040000, 10000001, 3600000000, 86390000999]
 TOKENS = ["word", "two words", "&", "<", "x > y", "a -->", "&amp;", "\u00e9", "it's", '"q"', "&gt;&gt; NARRATOR", "a &lt; b", "a&nbsp;b", "&#65;", "kidding ;> bye", "R&D;>", "<i>Previously</i>", "press <c> to go on", "<v Bob> hi", "x <b and y> 2"]
 
@@ -45,10 +46,14 @@ def bounds(tier):
 def hop(fmt, cs):
     import pycaption
 
-    W = {"srt": pycaption.SRTWriter, "webvtt": pycaption.WebVTTWriter, "dfxp": pycaption.DFXPWriter, "sami": pycaption.SAMIWriter, "microdvd": pycaption.MicroDVDWriter}
+    from pycaption.dfxp import extras
+
+    # "dfxp-single" / "dfxp-legacy": DFXP written by the library's two other DFXP writers
+    W = {"srt": pycaption.SRTWriter, "webvtt": pycaption.WebVTTWriter, "dfxp": pycaption.DFXPWriter, "sami": pycaption.SAMIWriter, "microdvd": pycaption.MicroDVDWriter,
+         "dfxp-single": extras.SinglePositioningDFXPWriter, "dfxp-legacy": extras.LegacyDFXPWriter}
     R = {"srt": pycaption.SRTReader, "webvtt": pycaption.WebVTTReader, "dfxp": pycaption.DFXPReader, "sami": pycaption.SAMIReader, "microdvd": pycaption.MicroDVDReader}
     doc = shared.obj(W[fmt]).write(cs)
-    return shared.obj(R[fmt]).read(doc), doc
+    return shared.obj(R.get(fmt, pycaption.DFXPReader)).read(doc), doc
 
 
 def ref_hop(fmt, model):
@@ -74,9 +79,16 @@ def _vis(l):
     return "" if l == STYLE_SPACER else l
 
 
-def build(model):
-    from pycaption import Caption, CaptionList, CaptionNode, CaptionSet
+POSITIONED = "/positioned"  # suffix of the class of sets whose captions carry a layout (see build)
 
+
+def build(model, positioned=False):
+    from pycaption import Caption, CaptionList, CaptionNode, CaptionSet
+    from pycaption.geometry import Layout, Padding, Point, Size, UnitEnum
+
+    # positioned: every caption, and each of its nodes, carries one layout object with an origin and four different
+    # paddings - the shape the DFXP reader gives the cues of a padded region
+    pct = lambda v: Size(v, UnitEnum.PERCENT)  # noqa
     caps = {}
     for lang, cues in model:
         cl = CaptionList()
@@ -94,7 +106,12 @@ def build(model):
                 else:
                     nodes.append(CaptionNode.create_text(ln))
             nodes += [CaptionNode.create_style(False, {"color": "red"})] * opened
-            cl.append(Caption(s, e, nodes))
+            lay = None
+            if positioned:
+                lay = Layout(origin=Point(pct(10), pct(70)), padding=Padding(before=pct(1), after=pct(2), start=pct(3), end=pct(6)))
+                for n in nodes:
+                    n.layout_info = lay
+            cl.append(Caption(s, e, nodes, layout_info=lay))
         caps[lang] = cl
     return CaptionSet(caps)
 
@@ -143,7 +160,7 @@ def same(obs, model):
 
 def explore(acc, model0, depth, formats, states_out, klass):
     try:
-        cs0 = build(model0)
+        cs0 = build(model0, klass.endswith(POSITIONED))
     except Exception as e:  # noqa
         return
     init_key = h8(repr(observe(cs0)))
@@ -166,7 +183,7 @@ def explore(acc, model0, depth, formats, states_out, klass):
                 m2 = ref_hop(fmt, model)
                 obs = observe(cs2)
                 why = same(obs, m2)
-                acc.case((model0, p2), True, h8(repr(obs)), {"initial": model0, "chain": p2} if len(p2) == depth else None)
+                acc.case((model0, p2, klass), True, h8(repr(obs)), {"initial": model0, "chain": p2} if len(p2) == depth else None)
                 if why:
                     acc.violation(f"C08/{klass}/{why}-differs@{fmt}/after:{'>'.join(path) or '-'}", case, {"got": obs, "want": m2, "doc": doc[-600:]})
                     continue
@@ -263,6 +280,10 @@ def run_shard(d):
             if i % d["nparts"] != d["part"]:
                 continue
             explore(acc, m, d["depth"], FORMATS, states, "one-language")
+            if i % 5 == 0:
+                explore(acc, m, 2, FORMATS, states, "one-language" + POSITIONED)
+            if i % 5 == 1:
+                explore(acc, m, 2, FORMATS + DFXP_EXTRA, states, "one-language/all-dfxp-writers")
     elif d["k"] == "reuse":
         shared.run(acc, reuse_items(), reuse_eval, sample=lambda it: {"reuse_run_step": [it[0], it[1]]})
     elif d["k"] == "double":
@@ -270,6 +291,9 @@ def run_shard(d):
             if i % d["nparts"] != d["part"]:
                 continue
             explore(acc, m, 3, ["dfxp", "sami"], states, "two-languages")
+            explore(acc, m, 2, ["dfxp", "sami"] + DFXP_EXTRA, states, "two-languages/all-dfxp-writers")
+            if i % 3 == 0:
+                explore(acc, m, 2, ["dfxp", "sami"], states, "two-languages" + POSITIONED)
     else:
         ms = single_models("quick")
         for i, m in enumerate(ms[::7]):
@@ -299,7 +323,7 @@ def replay(case):
     model0 = _m(case["model"])
     path = case["path"]
     klass = case.get("klass", "one-language")
-    cs = build(model0)
+    cs = build(model0, klass.endswith(POSITIONED))
     model = model0
     out = []
     for i, fmt in enumerate(path):
